@@ -42,6 +42,10 @@ partial def pItem : P Item := do
   | "attr" => do let v ← num; pure (.emitAttr v (← num))
   | "keys" => pure (.emitKeys (← num))
   | "call" => pure (.callVar (← num))
+  | "req" => pure .required
+  | "ssuper" => pure (.setSuper (← num))
+  | "sself" => do let v ← num; pure (.setSelf v (← num))
+  | "self" => pure (.callBlock (← num))
   | "for" => do
     let v ← num; let k ← num
     let vals ← rep k tok
@@ -80,15 +84,11 @@ def kindName : Kind → String
   | .panic => "PANIC"
   | .unsupported => "UNSUPPORTED"
 
-def showErr (e : Err) : String :=
-  let names := e.map kindName
-  if names.length > 24 then
-    s!"{">".intercalate (names.take 12)}>...>{names.getLast!}"
-  else ">".intercalate names
+def showErr (e : Err) : String := ">".intercalate (e.map kindName)
 
 /-- nesting fuel of the model run: far above every non-cyclic case the harness generates, and
     (like the engine's recursion limit) reached only by cycles -/
-def FUEL : Nat := 160
+def FUEL : Nat := 4000
 
 def handle (line : String) : String :=
   let case := (line.splitOn "\t").head!
@@ -102,7 +102,7 @@ def handle (line : String) : String :=
       | .error e => s!"err:{showErr e}"
     -- third column: the Lean *specification* (`specRender`) when the case lies in the core
     -- fragment for which `blocks_refine_spec` is proved
-    let spec := if decide (CoreEnv env) then showRes (specRender env FUEL 0) else "n/a"
+    let spec := if decide (EnvOK env) then showRes (specRender env [(0, .str "C0")] FUEL 0) else "n/a"
     s!"{case}\t{showRes (render env [(0, .str "C0")] FUEL 0)}\t{spec}"
 
 partial def loop (h : IO.FS.Stream) (out : IO.FS.Stream) : IO Unit := do
